@@ -17,7 +17,7 @@ RULE = ("cases from rng(seed, 12, 0, i): graphs of all pose types (trajectory an
         "(all vertices fixed / exactly consistent measurements / linear graph at its optimum); tol in {0, 1e-12..1e-1}, max_iter 1..30 (quick: ..12), verbose in {True, False}; "
         "one call vs single-iteration driving; random (all for n<=5) compositions k1+..+km=n. distinct = fingerprint(spec, tol, max_iter); non-trivial = run with >= 2 iterations.")
 REQ = ["eval:stopping-rule", "eval:report-chi2-sequence", "eval:final-state-is-trajectory-state", "eval:final-chi2-is-calc_chi2", "eval:verbose-does-not-alter", "eval:split-run-reproduces",
-       "eval:printed-table-matches-report", "eval:str(result)-matches-report", "class:early_stop", "class:max_iter_stop", "class:stationary", "class:diverging", "class:tol=0", "class:converged_at_max_iter", "class:singular", "class:nan_chi2_in_trace", "class:edge_overriding_calc_chi2", "eval:next-call-after-external-edit-equals-fresh-graph", "class:indefinite_information(negative chi2 possible)"]
+       "eval:printed-table-matches-report", "eval:str(result)-matches-report", "class:early_stop", "class:max_iter_stop", "class:stationary", "class:diverging", "class:tol=0", "class:converged_at_max_iter", "class:singular", "class:nan_chi2_in_trace", "class:edge_overriding_calc_chi2", "eval:next-call-after-external-edit-equals-fresh-graph", "class:indefinite_information(negative chi2 possible)", "class:fixed_vertex_released_between_calls", "class:landmark_offset_written_in_place_between_calls"]
 PLAN = {
     "quick": {"cases": 1200, "soft_s": 80, "min_nontrivial": 300, "require": REQ},
     "thorough": {"cases": 48000, "soft_s": 1400, "min_nontrivial": 10000, "require": REQ},
@@ -313,23 +313,55 @@ def report_check(ctx, rng, spec, gkind, tol, max_iter, ffp):
             v = movable[int(rng.integers(len(movable)))]
             kk = M.kind(v.pose)
             moved_to = M.fl(M.mkpose(kk, gen.perturb(rng, kk, M.fl(v.pose), 0.3, 0.1)))
-            how = int(rng.integers(3))
-            if how == 0:
+            how = int(rng.integers(4))
+            only_edge_side = how == 3  # no pose is touched this time: only edge-side data change (see below)
+            if only_edge_side:
+                pass
+            elif how == 0:
                 v.pose = M.mkpose(kk, moved_to)
             elif how == 1:
                 v.pose[:] = moved_to  # written into the existing pose object: the vertex still holds the same object
             else:
                 np.copyto(np.asarray(v.pose), np.array(moved_to))
             ffp2 = ffp
-            if rng.random() < 0.5:
+            if not only_edge_side and rng.random() < 0.5:
                 # the set of fixed vertices differs from the previous call too (another vertex marked fixed, or fix_first_pose switched)
                 others = [w for w in movable if w is not v]
                 if others and rng.random() < 0.5:
                     others[int(rng.integers(len(others)))].fixed = True
                 else:
                     ffp2 = not ffp
+            if not only_edge_side and rng.random() < 0.4:
+                # a vertex that was held fixed so far is released (and, to keep the gauge, another one is pinned instead)
+                held = [w for w in g2._vertices if w.fixed]
+                if held:
+                    held[int(rng.integers(len(held)))].fixed = False
+                    cand = [w for w in g2._vertices if not w.fixed and w is not v]
+                    if cand:
+                        cand[int(rng.integers(len(cand)))].fixed = True
+                    ctx.count("class:fixed_vertex_released_between_calls")
             now = gen.copy_spec(spec)
             now.pop("share", None)
+            if only_edge_side:
+                # ... or a measurement is corrected in place
+                ods = [(j, e_) for j, e_ in enumerate(g2._edges) if isinstance(e_.estimate, (M.PoseR2, M.PoseR3, M.PoseSE2)) and j < len(now["edges"]) and "est" in now["edges"][j]]
+                if ods and rng.random() < 0.5:
+                    j, e_ = ods[int(rng.integers(len(ods)))]
+                    e_.estimate[0] = float(e_.estimate[0]) + 0.25
+                    now["edges"][j]["est"] = M.fl(e_.estimate)
+                    ctx.count("class:measurement_written_in_place_between_calls")
+            if only_edge_side or rng.random() < 0.4:
+                # a landmark edge's sensor offset is re-calibrated in place (the object may be shared with a registered parameter)
+                lms = [(j, e_) for j, e_ in enumerate(g2._edges) if isinstance(e_, M.EdgeLandmark) and isinstance(getattr(e_, "offset", None), (M.PoseSE2, M.PoseSE3, M.PoseR2, M.PoseR3))]
+                if lms and all(se.get("type") == ("lm" if isinstance(le, M.EdgeLandmark) else se.get("type")) for se, le in zip(now["edges"], g2._edges)):
+                    j, e_ = lms[int(rng.integers(len(lms)))]
+                    ko = M.kind(e_.offset)
+                    new_off = M.fl(M.mkpose(ko, gen.perturb(rng, ko, M.fl(e_.offset), 0.2, 0.1)))
+                    e_.offset[:] = new_off
+                    for jj, (se, le) in enumerate(zip(now["edges"], g2._edges)):
+                        if isinstance(le, M.EdgeLandmark) and le.offset is e_.offset and "off" in se:
+                            se["off"] = list(new_off)
+                    ctx.count("class:landmark_offset_written_in_place_between_calls")
             for sv, lv in zip(now["vertices"], g2._vertices):
                 sv["pose"] = M.fl(lv.pose)
                 sv["fixed"] = bool(lv.fixed)
